@@ -21,6 +21,9 @@ type ReadStep struct {
 type Entropy struct {
 	Bytes  string     `json:"bytes"`            // hex; delivered in order
 	Script []ReadStep `json:"script,omitempty"` // behaviour of successive Read calls; afterwards "all"; stream exhausted => EOF
+	// Default: the caller passes NO entropy source (nil reader / no WithRNG option); the simulated
+	// source is installed as the process-wide default (crypto/rand.Reader) for the duration of the call
+	Default bool `json:"default,omitempty"`
 }
 
 type Lim struct {
